@@ -219,7 +219,12 @@ def gen_cases(tier, seed, with_chi2=True):
             pinv = G.rel(p, (zero, ident))
             pinv = (tuple(pinv[0]), tuple(pinv[1]))
             t2, tz = rnd.choice(TT), rnd.choice(TT)
-            for t1, r1, toff, roff in ((zero, ident, zero, ident), (p[0], p[1], pinv[0], pinv[1]), (zero, ident, p[0], p[1]), (p[0], p[1], zero, ident)):
+            combos = [(zero, ident, zero, ident), (p[0], p[1], pinv[0], pinv[1]), (zero, ident, p[0], p[1]), (p[0], p[1], zero, ident)]
+            if kind == 'SE3':
+                # the identity rotation written as the quaternion -1 (a compact form that drops the scalar part cannot tell it from +1)
+                mone = (0, 0, 0, -1, 1)
+                combos += [(p[0], p[1], zero, mone), (zero, mone, p[0], p[1]), (zero, mone, zero, mone)]
+            for t1, r1, toff, roff in combos:
                 add(dict(fam='lm', k=kind, k2=k2, t1=t1, r1=r1, t2=t2, toff=toff, roff=roff, tz=tz), d, n)
                 n += 1
             add(dict(fam='odo', k=kind, t1=p[0], r1=p[1], t2=p[0], r2=p[1], tz=zero, rz=ident), B.CDIM[kind], n)
